@@ -7,7 +7,7 @@
     values statements hold for the checked-in bindings. *)
 From Coq Require Import String List NArith Arith Bool.
 From Tongo Require Import Lib.Bits Lib.Res Spec.TlWire Model.Tl Model.TlMatch Model.TlHand
-     Proofs.TlWireP Proofs.TlGoP Proofs.TlApiP Proofs.TlHandP Generated.TlSchema Generated.TlBindings.
+     Proofs.TlWireP Proofs.TlGoP Proofs.TlApiP Proofs.TlHandP Generated.TlSchema Generated.TlBindings Generated.TlCopies.
 Import ListNotations.
 Local Open Scope N_scope.
 
@@ -148,6 +148,42 @@ Proof.
   - apply (hand_block_id_ext_layout tl_types d3); assumption.
 Qed.
 
+(** * Client.Request writes today's adnl.message.query, for all ids and queries *)
+Theorem C10_gen_adnl_query_sound : forall id q,
+  hash_ok id -> all_bytes q = true -> N.of_nat (length q) < two24 ->
+  tl_encode gonm tl_types (TBoxed "adnl.Message") (val_adnl_query id q) = Some (lc_request_payload id q).
+Proof.
+  intros id q Hi Hq Hl.
+  destruct (find (fun d => String.eqb "AdnlMessageQuery" (xlbl gonm d)) (ctors_of tl_types "adnl.Message"))
+    as [d|] eqn:Hf; [|vm_compute in Hf; discriminate].
+  apply (lc_request_is_adnl_query tl_types d id q Hf); auto.
+  - vm_compute in Hf. inversion Hf. reflexivity.
+  - vm_compute in Hf. inversion Hf. reflexivity.
+Qed.
+
+(** * every copy of a primitive TL codec in tl, liteclient, liteapi, ton is one the harness drives
+    (Generated/TlCopies.v: functions containing the literal 254, places containing a Bool id) *)
+Local Open Scope string_scope.
+Theorem C10_gen_length_copies :
+  tl_length_sites =
+    [("tl/decoder.go", "readByteSlice");          (* kinds c10.unmarshal, c10.cunmarshal, c10.bunmarshal *)
+     ("tl/encoder.go", "EncodeLength");           (* c10.enclen, c10.cmarshal, c10.bmarshal *)
+     ("liteclient/client.go", "encodeLength");    (* c10.lclen, c10.adnlreq *)
+     ("liteclient/client.go", "decodeLength")].   (* c10.lcdec, c10.adnlreq *)
+Proof. vm_compute. reflexivity. Qed.
+
+Definition bswap32 (x : N) : N := le_num (rev (le_bytes 4 x)).
+Theorem C10_gen_bool_copies :
+  tl_bool_sites =
+    [("tl/decoder.go", "decode", bool_true_id); ("tl/decoder.go", "decode", bool_false_id);
+     ("tl/encoder.go", "Marshal", bswap32 bool_true_id);     (* written with binary.BigEndian *)
+     ("tl/encoder.go", "Marshal", bswap32 bool_false_id);
+     ("liteapi/models.go", "BoolTrueTag", bswap32 bool_true_id);
+     ("liteapi/models.go", "BoolFalseTag", bswap32 bool_false_id)].
+Proof. vm_compute. reflexivity. Qed.
+Local Close Scope string_scope.
+
+Print Assumptions C10_gen_adnl_query_sound.
 Print Assumptions C10_gen_hand_codecs_sound.
 Print Assumptions C10_gen_bindings_sound.
 Print Assumptions C10_gen_requests_sound.
